@@ -40,6 +40,7 @@ pub struct ItsBinder {
     pub fresh: u32,
     pub sac_meta: Option<(Vec<u8>, Vec<u8>, u32)>,
     pub example: Address,
+    pub system: bool,
 }
 
 fn gw_inst() -> J {
@@ -50,7 +51,12 @@ fn gw_inst() -> J {
 
 impl ItsBinder {
     pub fn new(inst: &J, init: &J) -> ItsBinder {
-        let g = GatewayBinder::new(&gw_inst(), &json!({"deployed": true, "hashByEpoch": ["s1"], "owner": "gwowner", "operator": "gwop", "now": 0}));
+        Self::new_with_gateway(inst, init, &gw_inst(), &json!({"deployed": true, "hashByEpoch": ["s1"], "owner": "gwowner", "operator": "gwop", "now": 0}), false)
+    }
+
+    /// `system`: the gateway is part of the modelled system (its own catalogue and events)
+    pub fn new_with_gateway(inst: &J, init: &J, gwi: &J, gw_init: &J, system: bool) -> ItsBinder {
+        let g = GatewayBinder::new(gwi, gw_init);
         let ph = g.gw.clone().unwrap();
         let mut b = ItsBinder {
             g,
@@ -67,6 +73,7 @@ impl ItsBinder {
             fresh: 0,
             sac_meta: None,
             example: ph.clone(),
+            system,
         };
         let env = b.g.cx.env.clone();
         let gw = b.g.gw.clone().unwrap();
@@ -179,6 +186,15 @@ impl ItsBinder {
         }
         if !problems.is_empty() {
             b.idcheck = problems.join("; ");
+        }
+        if system {
+            b.g.src_override.insert("hub".into(), HUB_ADDR.into());
+            b.g.src_override.insert("nothub".into(), NOT_HUB_ADDR.into());
+            let pnames: Vec<String> = inst["Payloads"].as_object().unwrap().keys().cloned().collect();
+            for pn in pnames {
+                let bytes = b.payload_bytes(&pn);
+                b.g.payload_override.insert(pn, bytes);
+            }
         }
         b.g.cx.take_events();
         b
@@ -395,6 +411,12 @@ impl ItsBinder {
                 Some(n) => n,
                 None => continue,
             };
+            if self.system && c == &gw && name != "contract_called" {
+                if let Some(e) = self.g.decode_event(c, t, d) {
+                    out.push(e);
+                }
+                continue;
+            }
             if c == &gw && name == "contract_called" && t.get(1).and_then(|v| Address::try_from_val(&env, &v).ok()).as_ref() == Some(&self.example) {
                 out.push(json!({"k": "app_called", "app": "ex"}));
             } else if c == &gw && name == "contract_called" {
